@@ -34,7 +34,15 @@ FAM_OF = {'asdf': 'asdf', 'fits': 'fits', 'fits.gz': 'fits', 'pkl': 'pickle'}
 FIELD_DTYPES = ['float64', 'float32', 'int64', 'int32', 'int16', 'uint8', 'int8', 'uint16', 'uint32',
                 'uint64', 'complex128', 'complex64', 'bool', 'float16']
 BASIS_DTYPES = ['float64', 'float32', 'int64', 'int32', 'complex128', 'bool', 'uint8']
-ERRMAP = {'KeyError': 'key', 'ValueError': 'value', 'TypeError': 'type', 'AttributeError': 'attr'}
+ERRMAP = {'KeyError': 'key', 'ValueError': 'value', 'TypeError': 'type', 'AttributeError': 'attr', 'NotImplementedError': 'notimpl'}
+# (file name, fmt argument) pairs for the stream "filert": write_*(x, name, fmt) then read_*(name, fmt).  Extensions that are
+# guessed, names nothing can be guessed from (ValueError), an explicit fmt overriding the name, fmt strings no branch takes
+# (NotImplementedError), names without a dot.
+NAMED = [('a.asdf', None), ('a.fits', None), ('a.fits.gz', None), ('a.pkl', None), ('a.pickle', None),
+         ('a.dat', None), ('a.dat', 'asdf'), ('a.dat', 'fits'), ('a.dat', 'pickle'), ('a.asdf', 'fits'),
+         ('a.fits', 'pickle'), ('a.pkl', 'asdf'), ('a.dat', 'hdf5'), ('a.asdf', 'FITS'), ('xasdf', None),
+         ('a.fits.gz', 'fits'), ('a.gz', None), ('a.fit', None), ('a.fits.pickle', None), ('a.pkl.asdf', None),
+         ('a.pickle', 'fits'), ('a.fits', 'asdf'), ('a.asdf.bak', None), ('a.asdf', 'pkl'), ('b_fits', None)]
 
 
 # ---------------------------------------------------------------------------------------------
@@ -758,6 +766,19 @@ def raw_tree(fn, fmt, key):
 TREE_KEY = {'grid': 'grid', 'field': 'field', 'basis': 'mode_basis'}
 
 
+def sniff(fn):
+    """the format of a file, from its first bytes"""
+    with open(fn, 'rb') as f:
+        h = f.read(8)
+    if h.startswith(b'#ASDF'):
+        return 'asdf'
+    if h.startswith(b'SIMPLE') or h.startswith(b'\x1f\x8b'):     # astropy gzips FITS files named *.gz
+        return 'fits'
+    if h[:1] == b'\x80':
+        return 'pickle'
+    return 'other'
+
+
 def getstate_obs(x):
     """The real Field.__getstate__(): (shape, dtype tag, Fortran flag, bytes decoded with the dtype), and the memory
     layout class of the data as NumPy reports it (input of the model)."""
@@ -950,6 +971,45 @@ def round_trips(spec, tmpdir):
             if compare(y, 'write/read %s' % fmt, fam):
                 read_back[fmt] = y
             unchanged('read_%s(%s)' % (what, fmt), fam)
+        # named files: write_*(x, name, fmt) then read_*(name, fmt) for generated (file name, fmt argument) pairs
+        for nm, fm in spec.get('named') or []:
+            ndir = os.path.join(tmpdir, 'named')
+            os.makedirs(ndir, exist_ok=True)
+            fn = os.path.join(ndir, nm)
+            if os.path.exists(fn):
+                os.remove(fn)
+            o = {'name': nm, 'fmt': fm, 'w': 'ok', 'fam': '-', 'r': '-', 'out': None}
+            obs.setdefault('named', []).append(o)
+            route = 'write/read %r fmt=%r' % (nm, fm)
+            try:
+                write(x, fn, fmt=fm)
+            except Exception as e:  # noqa
+                o['w'] = ERRMAP.get(type(e).__name__, 'other:' + type(e).__name__)
+                unchanged('a refused ' + route, 'named')
+                continue
+            unchanged(route, 'named')
+            o['fam'] = sniff(fn)
+            try:
+                with _NewStyle(spec.get('newstyle')):
+                    y = read(fn, fmt=fm)
+                o['r'] = 'ok'
+            except Exception as e:  # noqa
+                o['r'] = ERRMAP.get(type(e).__name__, 'other:' + type(e).__name__)
+                if expected_refusal(e) and o['fam'] != 'pickle':
+                    continue
+                fails.append(('%s:named-file:%s:%s' % (what, o['fam'], ck), '%s succeeded but reading it back raised %s: %s' % (
+                    route, type(e).__name__, str(e)[:100])))
+                continue
+            try:
+                o['out'] = encode(y.to_dict())
+            except MachineryError:
+                raise
+            except Exception:  # noqa
+                o['out'] = None
+            if unreg and o['fam'] != 'pickle':
+                obs['unregistered_read_ok'] = 'named ' + nm
+            compare(y, route, 'named-file:' + o['fam'])
+            unchanged('reading ' + route, 'named')
         # chains: what was read from A is written to B, read, written to C, read
         for k, chain in enumerate(spec.get('chains') or []):
             cur = read_back.get(chain[0])
@@ -1123,6 +1183,20 @@ def model_requests(spec, obs):
             reqs.append(('file-new:' + fmt, 'C16 file %s %s new %s' % (what, fam, tree), exp))
             if what == 'grid':
                 reqs.append(('file-old:' + fmt, 'C16 file grid %s old %s' % (fam, tree), exp))
+    # named files: the readers / writers as a whole (format resolution, to_dict before the dispatch, the format's path)
+    if what == 'grid' or 'dict_tree' in obs:
+        lay = obs['getstate'][0] if (what == 'field' and 'getstate' in obs) else ('c' if what == 'field' else '-')
+        for o in obs.get('named', []):
+            fm = o['fmt'] if o['fmt'] is not None else '-'
+            if o['w'] != 'ok':
+                exp = 'ok w=%s fam=- r=- out=-' % o['w']
+            else:
+                exp = 'ok w=ok fam=%s r=%s out=%s' % (o['fam'], o['r'], o['out'] if o['r'] == 'ok' and o['out'] else '-')
+            reqs.append(('filert', 'C16 filert %s %s %s %s %s' % (what, lay, o['name'], fm, tree), exp))
+            if o['w'] == 'ok':
+                reqs.append(('format', 'C16 format %s %s' % (o['name'], fm), 'ok ' + o['fam']))
+            elif what == 'grid':        # a grid write is refused only when no format is found
+                reqs.append(('format', 'C16 format %s %s' % (o['name'], fm), 'err ' + o['w']))
     # to_dict and the FITS writer as programs over the object: _weights None-ness before / after
     wn = obs.get('wnone', {})
     if (what == 'grid' or 'dict_tree' in obs) and 'after_dict' in wn and 'after_fits' in wn:
@@ -1202,6 +1276,9 @@ def check_spec(ctx, spec, tmpdir, batch):
                                           'model': 'a grid with an unregistered coordinate system is written but not readable'})
     if 'getstate' in obs:
         ctx.count('getstate-layout:' + obs['getstate'][0])
+    for o in obs.get('named', []):
+        ctx.count('named-file:%s:%s' % ('fmt=' + (o['fmt'] or 'None'), 'written as %s, read %s' % (o['fam'], o['r']) if o['w'] == 'ok' else 'write-refused-' + o['w']))
+        ctx.count('named-file:name:' + o['name'])
     for m in obs.get('mods', []):
         ctx.count('mod:%s:%s' % (what, m))
     ctx.count('%s:modified-after-construction' % what if any(m.startswith('applied') for m in obs.get('mods', [])) else '%s:fresh' % what)
@@ -1281,6 +1358,26 @@ def check_ravel(ctx, rng, n, batch):
             ctx.count('ravel/unravel:empty-axis')
 
 
+def check_names(ctx, rng, n, batch):
+    """_guess_file_format on generated names vs the model's guessFormat"""
+    import sys
+    import hcipy  # noqa
+    hio = sys.modules['hcipy.util.io']
+    ends = ['asdf', 'fits', 'fits.gz', 'pkl', 'pickle', 'fit', 'gz', 'asd', 'kl', 'pickl', 'ASDF', 'Fits', 'fits.g', 'its', 'dat', '']
+    names = [n_ for n_, _ in NAMED]
+    alphabet = 'adfgiklpstz._'
+    for _ in range(n):
+        stem = ''.join(alphabet[int(i)] for i in rng.integers(0, len(alphabet), int(rng.integers(0, 6))))
+        e = ends[int(rng.integers(0, len(ends)))]
+        names.append(stem + ('.' if rng.integers(0, 3) else '') + e + ('' if rng.integers(0, 6) else alphabet[int(rng.integers(0, len(alphabet)))]))
+    for nm in names:
+        if not nm:
+            continue
+        real = hio._guess_file_format(nm)
+        batch.append((None, 'guess', 'C16 guess ' + nm, 'ok ' + (real if real is not None else 'none')))
+        ctx.count('guess:' + str(real))
+
+
 def run(ctx):
     ctx.rule = ('objects are rebuilt from JSON specs: grids (regular / separated incl. unequal axis lengths / unstructured; '
                 '1-3 D; Cartesian and polar; float64, float32 and int64 coordinates; weights absent, Python or NumPy scalar, '
@@ -1299,6 +1396,10 @@ def run(ctx):
                 'read status and object read; stream todict-st: _weights None-ness before / after to_dict and after the FITS write vs the model\'s programs over '
                 'the object (and the bad variant must be told apart exactly on lazy grids); stream getstate: the real Field.__getstate__() (shape, dtype, '
                 'Fortran flag, bytes) vs the model\'s getState. ' 
+                'stream filert: write_*(x, name, fmt) then read_*(name, fmt) for a pool of (file name, fmt argument) pairs (guessed extensions, '
+                'nothing to guess, explicit fmt overriding the name, fmt strings no branch takes) vs the model\'s write...File / read...File '
+                '(write status, format found in the file by its magic bytes, read status, object read); stream guess: _guess_file_format on generated names; '
+                'ravel/unravel now with NumPy\'s refusals (out of bounds, wrong length, empty axis). '
                 'Non-trivial = more than one grid point; distinct by the full description tuple.')
     ctx.assumptions += ['asdf, astropy.io.fits and pickle store and return arrays faithfully (exercised, not proved); for asdf files and grid '
                         'FITS files this is the Lean hypothesis AsdfFaithful, monitored on every file written (stream "file"): the tree '
@@ -1328,11 +1429,20 @@ def run(ctx):
             spec['chains'] = [[a, b, FORMATS[(i // 8) % 4]], [a2, b2, FORMATS[(i // 8 + 2) % 4]]]
         else:
             spec['chains'] = gen_chains(rng, 2)
+    # named files: the directed corpus walks through the pool of (file name, fmt) pairs, the rest draws from it
+    for i, spec in enumerate(specs):
+        if 'named' in spec:
+            continue
+        if i < len(DIRECTED):
+            spec['named'] = [list(NAMED[(2 * i) % len(NAMED)]), list(NAMED[(2 * i + 1) % len(NAMED)])]
+        else:
+            spec['named'] = [list(NAMED[int(rng.integers(0, len(NAMED)))])]
     batch = []
     with tempfile.TemporaryDirectory(prefix='c16_') as tmpdir:
         for spec in specs:
             check_spec(ctx, spec, tmpdir, batch)
     check_ravel(ctx, rng, ctx.scale(50, 1000), batch)
+    check_names(ctx, rng, ctx.scale(150, 3000), batch)
     out = ctx.model([b[2] for b in batch])
     old_agree = old_total = 0
     gold_agree = gold_total = 0
@@ -1361,6 +1471,8 @@ def run(ctx):
             resp, exp = canon_scalars(resp), canon_scalars(exp)
         if label.startswith('file-') or label == 'todict-st':
             resp, exp = canon_answer(resp), canon_answer(exp)
+        if label == 'filert':
+            resp, exp = canon_answer(canon_scalars(resp)), canon_answer(canon_scalars(exp))
         if resp != exp:
             ctx.disagree('C16 ' + label, {'spec': spec, 'impl': exp[:2000], 'model': resp[:2000]})
         ctx.count('model-stream:' + label.split(':')[0])
